@@ -49,18 +49,32 @@ class SymMatch:
         raise Unsupported("span of a symbolic match")
 
 
+def _strip_edge(ast: Any, kind: str, first: bool) -> Tuple[Any, bool]:
+    """remove a ^ at the very beginning / a $ at the very end (also through non-capturing groups)"""
+    if isinstance(ast, Sym) and ast.kind == kind:
+        return Cat(()), True
+    if isinstance(ast, Cat) and ast.items:
+        i = 0 if first else len(ast.items) - 1
+        sub, hit = _strip_edge(ast.items[i], kind, first)
+        if hit:
+            items = list(ast.items)
+            items[i] = sub
+            return Cat(tuple(x for x in items if not (isinstance(x, Cat) and not x.items))), True
+        return ast, False
+    if isinstance(ast, Grp) and ast.cap is None:
+        sub, hit = _strip_edge(ast.node, kind, first)
+        return (Grp(sub, None), True) if hit else (ast, False)
+    return ast, False
+
+
 def _strip_anchors(ast: Any) -> Tuple[Any, bool, bool]:
     """remove a leading ^ and a trailing $; returns (ast, had_bol, had_eol)"""
-    bol = eol = False
-    if isinstance(ast, Cat):
-        items = list(ast.items)
-        if items and isinstance(items[0], Sym) and items[0].kind == "bol":
-            items.pop(0)
-            bol = True
-        if items and isinstance(items[-1], Sym) and items[-1].kind == "eol":
-            items.pop()
-            eol = True
-        ast = Cat(tuple(items))
+    ast, bol = _strip_edge(ast, "bol", True)
+    ast, eol = _strip_edge(ast, "eol", False)
+    ast, bol2 = _strip_edge(ast, "bol", True)     # (?:^...)$ : the ^ surfaces after the $ is gone
+    bol = bol or bol2
+    if not isinstance(ast, Cat):
+        ast = Cat((ast,))
     for n in rx.walk(ast):
         if isinstance(n, Sym) and n.kind in ("bol", "eol"):
             raise Unsupported("anchor inside the pattern")
